@@ -102,6 +102,7 @@ func (s *Service) Running() bool {
 	if s.isFinished.Load() {
 		return false
 	}
+	s.verifYield("srv.Service.Running.checked")
 	return s.isRunning.Load()
 }
 
@@ -126,6 +127,7 @@ func (s *Service) Start(ctx context.Context) error {
 	if s.isFinished.Load() {
 		// the service finished between the first check and the
 		// swap: it must not be reported as running again.
+		verifAt(ctx, "srv.Service.Start.rechecked", s)
 		s.isRunning.Store(false)
 		return ErrServiceReturned
 	}
